@@ -180,7 +180,7 @@ func (e *explorer) shard(idx int, text string, sets []Opts) {
 				and &= v.mask
 				masks = append(masks, km{kind, v.mask})
 			}
-			if oi == 0 && kind == e.allKinds[(idx+e.seed)%len(e.allKinds)] && (idx+e.seed)%301 == 7 && e.r.WantSample() {
+			if oi == 0 && kind == e.allKinds[(idx+e.seed)%len(e.allKinds)] && (idx+e.seed)%301 == 7 && e.sampleN.Add(1) <= 9 {
 				e.r.Sample(map[string]any{"case": Case{Kind: kind, Text: text, Opts: o}, "observed": x.showOut(kind, o, v.out)})
 			}
 		}
